@@ -46,8 +46,9 @@ def is_def(r: str) -> bool:
 
 class AxisEval:
     def __init__(self, ctx, q: str, contracts: Dict[str, Contract], res: Optional[FuncResult] = None,
-                 method_roles: Optional[Dict[str, Tuple[str, ...]]] = None):
+                 method_roles: Optional[Dict[str, Tuple[str, ...]]] = None, size_roles: Optional[Dict[object, str]] = None):
         self.method_roles = method_roles or {}      # roles of `<anything>.name()` (argument-less accessor methods)
+        self.size_roles = size_roles or {}          # extent -> role: parameter names (`n_cv`) and integer literals (2) used as sizes
         self.ctx = ctx
         self.prog = ctx.prog
         self.q = q
@@ -176,6 +177,10 @@ class AxisEval:
         if isinstance(e, ast.Call) and isinstance(e.func, ast.Name) and e.func.id == 'len' and e.args:
             r = self.roles(e.args[0], depth + 1)
             return r[0] if r and is_def(r[0]) else None
+        if isinstance(e, ast.Constant) and isinstance(e.value, int) and e.value in self.size_roles:
+            return self.size_roles[e.value]
+        if isinstance(e, ast.Name) and e.id in self.size_roles and all(d.kind == 'param' for d in self._defs_of(e)):
+            return self.size_roles[e.id]
         if isinstance(e, ast.Name):
             out = None
             for d in self._defs_of(e):
@@ -471,9 +476,9 @@ class AxisEval:
                 shp = e.args[1].elts if len(e.args) > 1 and isinstance(e.args[1], (ast.Tuple, ast.List)) else e.args[1:]
             vals = [_int_const(x) for x in shp]
             if src is not None and len(src) == 1 and len(vals) == 2:
-                if vals == [-1, 1]:
+                if vals[1] == 1 and vals[0] != 1:
                     return (src[0], '1')
-                if vals == [1, -1]:
+                if vals[0] == 1 and vals[1] != 1:
                     return ('1', src[0])
             if src is not None and len(src) == 2 and len(vals) == 2 and vals[1] == -1:
                 # x[mask].reshape(x.shape[0], -1): first axis restored
@@ -518,6 +523,33 @@ class AxisEval:
             if src is not None and k is not None and 0 <= k <= len(src):
                 return tuple(src[:k]) + ('1',) + tuple(src[k:])
             return None
+        if nm in ('concatenate', 'vstack') and e.args and isinstance(e.args[0], (ast.List, ast.Tuple)) and len(e.args[0].elts) >= 2:
+            g, ax, _ = self._axis_arg(e, 1)
+            ax = 0 if (not g or nm == 'vstack') else ax
+            parts = [self.roles(x, depth + 1) for x in e.args[0].elts]
+            if ax is None or any(p is None for p in parts):
+                return None
+            ranks = {len(p) for p in parts}
+            if len(ranks) > 1 and nm == 'concatenate':
+                self.clash(e, f'`{norm(e)[:100]}`: arrays of rank {sorted(ranks)} are concatenated (numpy raises: all inputs must have '
+                              f'the same number of dimensions)')
+                return None
+            if len(ranks) > 1:
+                return None
+            n = len(parts[0])
+            if not (-n <= ax < n):
+                return None
+            ax %= n
+            out = []
+            for i in range(n):
+                if i == ax:
+                    out.append('?')
+                    continue
+                rs = {p[i] for p in parts if is_def(p[i])}
+                if len(rs) > 1:
+                    self.clash(e, f'`{norm(e)[:100]}`: axis {i} has roles {sorted(rs)} in the concatenated arrays')
+                out.append(next(iter(rs)) if len(rs) == 1 else '?')
+            return tuple(out)
         if nm in ('diag', 'diagonal') and (e.args or is_method):
             src = self.roles(fn.value if is_method else e.args[0], depth + 1)
             if src is not None and len(src) == 2:
@@ -527,6 +559,10 @@ class AxisEval:
             return None
         if nm == 'len':
             return ()
+        # a function without a typing rule: its arguments are still typed (clashes inside them are clashes)
+        for a in list(e.args) + [k.value for k in e.keywords]:
+            if not isinstance(a, ast.Starred):
+                self.roles(a, depth + 1)
         return None
 
     def _einsum(self, e: ast.Call, depth) -> Roles:
